@@ -269,6 +269,8 @@ BIL_SCALAR = [
     "lambda u, v: (c0 / (u + 2)).dot(v)",
     "lambda u, v: (u - kappa).dot(v + 1)",
     "lambda u, v: (kappa * Am @ u.grad) @ v.grad",
+    "lambda u, v: u * v",
+    "lambda u, v: c0 * u * v + u.grad.dot(v.grad)",
 ]
 LIN_SCALAR = [
     "lambda v: 1 * v",
@@ -276,6 +278,12 @@ LIN_SCALAR = [
     "lambda v: v * kappa - v / c0",
     "lambda v: v.grad.dot(bv).reshape(Ne, nPg, 1)",
     "lambda v: (bv @ v.grad).reshape(Ne, nPg, 1)",
+    "lambda v: bv @ v.grad",
+    "lambda v: kappa * v.grad.dot(bv)",
+]
+LIN_VECTOR = [
+    "lambda v: Sym_Grad(v).ddot(S0)",
+    "lambda v: Trace(v.grad) * kappa",
 ]
 BIL_VECTOR = [
     "lambda u, v: Sym_Grad(u).ddot(Sym_Grad(v))",
@@ -332,7 +340,8 @@ def forms_rule(ctx):
     Am = XArray((dim, dim), [Poly.var(f"A{i}{j}") for i in range(dim) for j in range(dim)])
     bv = XArray((dim,), [Poly.var(f"b{i}") for i in range(dim)])
     C4 = XArray((dim,) * 4, [Poly.var("C" + "".join(map(str, idx))) for idx in itertools.product(range(dim), repeat=4)])
-    consts = {"c0": Q(3), "lmbda": Q(5, 2), "mu": Q(7, 3), "Am": Am, "bv": bv, "C4": C4, "Ne": Ne, "nPg": nPg}
+    S0 = XArray((dim, dim), [Poly.var("S00"), Poly.var("S01"), Poly.var("S01"), Poly.var("S11")])
+    consts = {"c0": Q(3), "lmbda": Q(5, 2), "mu": Q(7, 3), "Am": Am, "bv": bv, "C4": C4, "S0": S0, "Ne": Ne, "nPg": nPg}
     impl_env = dict(consts, kappa=kappa, Trace=repo.func("EasyFEA.FEM._linalg.Trace"), Transpose=repo.func("EasyFEA.FEM._linalg.Transpose"), Sym_Grad=repo.func("EasyFEA.FEM._field.Sym_Grad"))
 
     class _Reshaped:
@@ -401,3 +410,5 @@ def forms_rule(ctx):
         run_form(src, False, 2, 1, "scalar linear")
     for src in BIL_VECTOR:
         run_form(src, True, 2, 2, "vector bilinear")
+    for src in LIN_VECTOR:
+        run_form(src, False, 2, 2, "vector linear")
